@@ -154,7 +154,9 @@ def finding_matches(f, prop, spec, full, failed_clauses, inputs):
     key = f.get("key", {})
     if key.get("contract") and key["contract"] != spec.name:
         return False
-    if key.get("obligation") and key["obligation"] != full.split(":", 1)[1] and key["obligation"] not in failed_clauses:
+    # a known finding is identified by the very obligation that fails (not by whatever else the native replay of the
+    # counterexample happens to violate as well): a different violation of the same property is still reported
+    if key.get("obligation") and key["obligation"] != full.split(":", 1)[1]:
         return False
     pred = key.get("input_class")
     if pred:
